@@ -4,5 +4,928 @@
 import PjVerif.Lemmas.SchedPass
 import PjVerif.Spec.Sched2
 namespace Pj
+/- all helpers live in `Pj.C04` so that their (generic) names cannot clash with the sibling lemma files -/
+namespace C04
 
+/-! ### time helpers -/
+
+
+theorem dayOf_le_self (x : Time) : ((dayOf x : Int) : Rat) ≤ x := by
+  unfold dayOf; exact Rat.floor_le x
+
+theorem lt_dayOf_succ (x : Time) : x < ((dayOf x : Int) : Rat) + 1 := by
+  unfold dayOf; have := Rat.lt_floor_add_one x; rw [Rat.intCast_add] at this; exact this
+
+theorem dayOf_mono {a b : Time} (h : a ≤ b) : dayOf a ≤ dayOf b := by
+  unfold dayOf
+  exact Rat.le_floor_iff.2 (Rat.le_trans (Rat.floor_le a) h)
+
+theorem cast_le_cast {a b : Int} (h : a ≤ b) : (a : Rat) ≤ (b : Rat) := Rat.intCast_le_intCast.mpr h
+
+theorem cast_succ_le_cast {a b : Int} (h : a < b) : (a : Rat) + 1 ≤ (b : Rat) := by
+  have : ((a + 1 : Int) : Rat) ≤ (b : Rat) := Rat.intCast_le_intCast.mpr h
+  rw [Rat.intCast_add] at this; exact this
+
+theorem dayOf_eq_of_bounds (d : Int) (x : Time) (h0 : (d : Rat) ≤ x) (h1 : x < (d : Rat) + 1) : dayOf x = d := by
+  have : x = (d : Rat) + (x - d) := by grind
+  rw [this]; exact dayOf_add_frac d _ (by grind) (by grind)
+
+theorem le_maxT_left (a b : Time) : a ≤ maxT a b := by unfold maxT; split <;> grind
+theorem le_maxT_right (a b : Time) : b ≤ maxT a b := by unfold maxT; split <;> grind
+theorem maxT_cases (a b : Time) : (maxT a b = a ∧ b ≤ a) ∨ (maxT a b = b ∧ a < b) := by unfold maxT; split <;> grind
+theorem minT_le_left (a b : Time) : minT a b ≤ a := by unfold minT; split <;> grind
+theorem minT_le_right (a b : Time) : minT a b ≤ b := by unfold minT; split <;> grind
+
+/-- the forward reservation of a leaf: what the rows and the end date look like -/
+theorem fwd_leaf_rows (env : Env) (hc : env.clockOK) (cal : Cal) (used : Int → Rat) (hu : ∀ d, 0 ≤ used d)
+    (st : Time) (k : Nat) (left : Rat) (hl : 0 ≤ left) (e : Time) (rows : List (Int × Rat))
+    (h : shiftFwd cal used (maxT st (env.clock k)) left = .ok (e, rows)) :
+    (rows.map (·.2)).sum = left ∧ (rows.map (·.1)).Pairwise (· ≠ ·) ∧
+    (∀ p ∈ rows, dayOf st ≤ p.1 ∧ (p.1 : Rat) < maxT (maxT e (env.clock (k + 1))) st ∧ dayOf (env.clock 0) ≤ p.1) ∧
+    (rows ≠ [] → ∃ d : Int, (∃ p ∈ rows, p.1 = d) ∧ (∀ p ∈ rows, p.1 ≤ d) ∧
+      (d : Rat) < maxT (maxT e (env.clock (k + 1))) st ∧ maxT (maxT e (env.clock (k + 1))) st ≤ (d : Rat) + 1) := by
+  obtain ⟨h0, h1⟩ := shiftFwd_spec cal used _ left e rows hl hu h
+  by_cases hz : left = 0
+  · obtain ⟨_, rfl⟩ := h0 hz
+    simp [hz]
+  · obtain ⟨dayL, dauL, hs, hne, he1, he2, _⟩ := h1 (by grind)
+    have hE1 : e ≤ maxT (maxT e (env.clock (k + 1))) st :=
+      Rat.le_trans (le_maxT_left _ _) (le_maxT_left _ _)
+    have hlow : ∀ p ∈ rows, dayOf (maxT st (env.clock k)) ≤ p.1 := fun p hp => by
+      have := (hs.range p hp).1; omega
+    have hd1 : dayOf st ≤ dayOf (maxT st (env.clock k)) := dayOf_mono (le_maxT_left _ _)
+    have hd2 : dayOf (env.clock 0) ≤ dayOf (maxT st (env.clock k)) := by
+      rw [← hc.2 k]; exact dayOf_mono (le_maxT_right _ _)
+    refine ⟨hs.total, hs.incr.imp (fun h => Int.ne_of_lt h), ?_, ?_⟩
+    · intro p hp
+      have := hlow p hp
+      have h3 := (hs.range p hp).2
+      have h4 := cast_le_cast h3
+      refine ⟨by omega, by grind, by omega⟩
+    · intro _
+      obtain ⟨⟨u, hlast⟩, _, _⟩ := hs.last hne
+      have hmem := List.mem_of_getLast? hlast
+      refine ⟨dayL, ⟨_, hmem, rfl⟩, fun p hp => (hs.range p hp).2, by grind, ?_⟩
+      have hL : dayOf (maxT st (env.clock k)) ≤ dayL := hlow _ hmem
+      have b1 : st < (dayL : Rat) + 1 := by
+        have := lt_dayOf_succ st
+        have := cast_le_cast (show dayOf st ≤ dayL by omega)
+        grind
+      have b2 : env.clock (k + 1) < (dayL : Rat) + 1 := by
+        have := lt_dayOf_succ (env.clock (k + 1))
+        have := cast_le_cast (show dayOf (env.clock (k + 1)) ≤ dayL by rw [hc.2 (k + 1)]; omega)
+        grind
+      rcases maxT_cases (maxT e (env.clock (k + 1))) st with ⟨h1, _⟩ | ⟨h1, _⟩
+      · rw [h1]
+        rcases maxT_cases e (env.clock (k + 1)) with ⟨h2, _⟩ | ⟨h2, _⟩ <;> rw [h2] <;> grind
+      · rw [h1]; grind
+
+/-- a start computed by `nearestFwd` lies on the first reserved day -/
+theorem fwd_leaf_start (env : Env) (hc : env.clockOK) (cal : Cal) (used : Int → Rat) (hu : ∀ d, 0 ≤ used d)
+    (s0 st : Time) (k1 k : Nat) (hk : env.clock k1 ≤ s0) (hn : nearestFwd cal used s0 = .ok st)
+    (left : Rat) (hl : 0 ≤ left) (e : Time) (rows : List (Int × Rat))
+    (h : shiftFwd cal used (maxT st (env.clock k)) left = .ok (e, rows)) (hne : rows ≠ []) :
+    ∃ p ∈ rows, p.1 = dayOf st := by
+  obtain ⟨d, c, g1, g2, g3, g4, g5, _⟩ := nearestFwd_spec cal used s0 st hu hn
+  obtain ⟨h0, h1⟩ := shiftFwd_spec cal used _ left e rows hl hu h
+  by_cases hz : left = 0
+  · exact absurd (h0 hz).2 hne
+  · obtain ⟨dayL, dauL, hs, _, _, _, _⟩ := h1 (by grind)
+    have hday : dayOf (maxT st (env.clock k)) = d := by
+      rcases maxT_cases st (env.clock k) with ⟨h1, _⟩ | ⟨h1, h2⟩
+      · rw [h1]; exact g5
+      · rw [h1]
+        have a1 : dayOf st ≤ dayOf (env.clock k) := dayOf_mono (Rat.le_of_lt h2)
+        have a2 : dayOf (env.clock k1) ≤ dayOf s0 := dayOf_mono hk
+        rw [hc.2 k] at a1 ⊢
+        rw [hc.2 k1] at a2
+        omega
+    rw [g5]
+    refine Classical.byContradiction fun hno => ?_
+    have hall : ∀ p ∈ rows, p.1 ≠ d := fun p hp hpd => hno ⟨p, hp, hpd⟩
+    obtain ⟨p0, hp0⟩ := List.exists_mem_of_ne_nil rows hne
+    have hr := hs.range p0 hp0
+    obtain ⟨c', hc1, hc2⟩ := hs.skipped d (by omega) (by have := hall p0 hp0; omega) hall
+    rw [g2] at hc1; cases hc1
+    grind
+
+
+/-- the backward reservation of a leaf -/
+theorem bwd_leaf_rows (cal : Cal) (used : Int → Rat) (hu : ∀ d, 0 ≤ used d)
+    (en E : Time) (hE : en ≤ E) (left : Rat) (hl : 0 ≤ left) (s : Time) (rows : List (Int × Rat))
+    (h : shiftBwd cal used en left = .ok (s, rows)) :
+    (rows.map (·.2)).sum = left ∧ (rows.map (·.1)).Pairwise (· ≠ ·) ∧
+    (∀ p ∈ rows, dayOf s ≤ p.1 ∧ (p.1 : Rat) < E) ∧
+    (rows ≠ [] → ∃ d : Int, (∃ p ∈ rows, p.1 = d) ∧ (∀ p ∈ rows, d ≤ p.1) ∧ (d : Rat) ≤ s ∧ s < (d : Rat) + 1) := by
+  obtain ⟨h0, h1⟩ := shiftBwd_spec cal used en left s rows hl hu h
+  by_cases hz : left = 0
+  · obtain ⟨_, rfl⟩ := h0 hz
+    simp [hz]
+  · obtain ⟨dayL, hs, hne, he1, he2⟩ := h1 (by grind)
+    have hds : dayOf s = dayL := dayOf_eq_of_bounds dayL s he1 he2
+    refine ⟨hs.total, hs.decr.imp (fun h => Int.ne_of_gt h), ?_, ?_⟩
+    · intro p hp
+      have hr := hs.range p hp
+      have := cast_succ_le_cast hr.1
+      have := dayOf_le_self en
+      refine ⟨by omega, by grind⟩
+    · intro _
+      obtain ⟨u, hlast⟩ := hs.last hne
+      exact ⟨dayL, ⟨_, List.mem_of_getLast? hlast, rfl⟩, fun p hp => (hs.range p hp).2, he1, he2⟩
+
+/-! ### the stages of a placement, in detail -/
+
+
+theorem fwdStart_leaf (env : Env) (cal : Cal) (used : Int → Rat) (t : Uid) (m : Time) (σ σ' : SS)
+    (hl : (env.info t).children.isEmpty = true) (h : fwdStart env cal used t m σ = .ok σ') :
+    ((σ.f t).start.isSome = true ∧ σ' = σ) ∨
+    ((σ.f t).start = none ∧ ∃ s,
+      nearestFwd cal used (maxT (maxT m (env.clock σ.reads)) ((env.info t).minStart.getD epoch)) = .ok s ∧
+      σ' = setF { σ with reads := σ.reads + 1 } t (fun g => { g with start := some s })) := by
+  unfold fwdStart at h
+  simp only at h
+  split at h
+  · rename_i s hs
+    cases h; exact Or.inl ⟨by simp [hs], rfl⟩
+  · rename_i hs
+    rw [if_pos hl] at h
+    simp only [bind, Except.bind, now] at h
+    split at h
+    · cases h
+    · rename_i s hn
+      cases h
+      exact Or.inr ⟨hs, s, hn, rfl⟩
+
+theorem fillEst_leaf (env : Env) (t : Uid) (σ σ' : SS) (hl : (env.info t).children.isEmpty = true)
+    (h : fillEst env t σ = .ok σ') :
+    σ'.f t = { (σ.f t) with est := some (((σ.f t).est).getD env.defaultEst), spent := some (((σ.f t).spent).getD 0) } ∧
+    σ'.reads = σ.reads := by
+  unfold fillEst at h
+  simp only [hl, if_true, bind, Except.bind, pure, Except.pure] at h
+  cases he : (σ.f t).est with
+  | some e =>
+    simp only [he] at h
+    cases hs : (σ.f t).spent with
+    | some s => simp only [hs] at h; cases h; refine ⟨?_, rfl⟩
+                rcases hg : σ.f t with ⟨a, b, c, d⟩
+                rw [hg] at he hs; simp only at he hs; subst he hs; rfl
+    | none => simp only [hs] at h; cases h; simp [setF, he]
+  | none =>
+    simp only [he] at h
+    cases hs : (σ.f t).spent with
+    | some s => simp only [hs, setF, upd_same] at h; cases h; simp
+    | none => simp only [hs, setF, upd_same] at h; cases h; simp
+
+theorem fwdEnd_leaf (env : Env) (cal : Cal) (used : Int → Rat) (t : Uid) (σ σ' : SS)
+    (hl : (env.info t).children.isEmpty = true) (h : fwdEnd env cal used t σ = .ok σ') :
+    ((σ.f t).end_.isSome = true ∧ σ' = σ) ∨
+    ((σ.f t).end_ = none ∧ ∃ e rows,
+      shiftFwd cal used (maxT (((σ.f t).start).getD epoch) (env.clock σ.reads)) (leftOf σ t) = .ok (e, rows) ∧
+      σ' = setF { (addRows { σ with reads := σ.reads + 1 } (env.info t).resource t rows) with reads := σ.reads + 2 } t
+        (fun g => { g with end_ := some (maxT (maxT e (env.clock (σ.reads + 1))) (((σ.f t).start).getD epoch)) })) := by
+  unfold fwdEnd at h
+  simp only at h
+  split at h
+  · rename_i s hs
+    cases h; exact Or.inl ⟨by simp [hs], rfl⟩
+  · rename_i hs
+    rw [if_pos hl] at h
+    simp only [bind, Except.bind, now] at h
+    split at h
+    · cases h
+    · rename_i v hv
+      obtain ⟨e, rows⟩ := v
+      cases h
+      exact Or.inr ⟨hs, e, rows, hv, rfl⟩
+
+
+
+theorem fwdEnd_nonleaf (env : Env) (cal : Cal) (used : Int → Rat) (t : Uid) (σ σ' : SS)
+    (hl : (env.info t).children.isEmpty = false) (h : fwdEnd env cal used t σ = .ok σ') : Stage env t [] σ σ' := by
+  unfold fwdEnd at h
+  simp only [hl] at h
+  split at h
+  · cases h; exact Stage.refl _ _ _
+  · simp only [Bool.false_eq_true, if_false] at h
+    split at h
+    · cases h
+    · cases h; exact Stage.setF _ _ _ _
+
+theorem bwdStart_nonleaf (env : Env) (cal : Cal) (used : Int → Rat) (t : Uid) (m : Time) (σ σ' : SS)
+    (hl : (env.info t).children.isEmpty = false) (h : bwdStart env cal used t m σ = .ok σ') : Stage env t [] σ σ' := by
+  unfold bwdStart at h
+  simp only [hl, Bool.false_eq_true, if_false] at h
+  split at h
+  · cases h
+  · cases h; exact Stage.setF _ _ _ _
+
+/-- the frame of one placement: `t` becomes done, only its fields change, `new` is appended for it -/
+structure PlaceRes (env : Env) (t : Uid) (new : List (Int × Rat)) (σ σ' : SS) : Prop where
+  done : σ'.done = σ.done ++ [t]
+  f : ∀ x, x ≠ t → σ'.f x = σ.f x
+  rows : σ'.rows = σ.rows ++ new.map (mkRow (env.info t).resource t)
+  reads : σ.reads ≤ σ'.reads
+
+theorem PlaceRes.of_stage {env : Env} {t : Uid} {new : List (Int × Rat)} {σ σm : SS} {r : List (Option Nat × Cal)}
+    (hs : Stage env t new { σ with res := r } σm) : PlaceRes env t new σ (markDone σm t) :=
+  ⟨by simp [markDone, hs.done], hs.f, hs.rows, hs.reads⟩
+
+
+/-! ### what one placement establishes for its task -/
+
+
+/-- the per-task facts common to both directions, about the rows `new` a placement reserved -/
+structure PlacedCore (env : Env) (f0 : Uid → Fields) (t : Uid) (new : List (Int × Rat)) : Prop where
+  none : works env f0 t = false → new = []
+  amount : works env f0 t = true → (new.map (·.2)).sum = remaining env f0 t
+  once : (new.map (·.1)).Pairwise (· ≠ ·)
+
+/-- what a forward placement establishes about the final fields `g` of its task and the rows it reserved -/
+structure PlacedF (env : Env) (f0 : Uid → Fields) (t : Uid) (g : Fields) (new : List (Int × Rat)) : Prop where
+  core : PlacedCore env f0 t new
+  window : ∀ p ∈ new, ∃ s e, g.start = some s ∧ g.end_ = some e ∧ dayOf s ≤ p.1 ∧ (p.1 : Rat) < e ∧
+    dayOf (env.clock 0) ≤ p.1
+  startFirst : (f0 t).start = none → new ≠ [] → ∃ s, g.start = some s ∧ ∃ p ∈ new, p.1 = dayOf s
+  endLast : new ≠ [] → ∃ e, ∃ d : Int, g.end_ = some e ∧ (∃ p ∈ new, p.1 = d) ∧ (∀ p ∈ new, p.1 ≤ d) ∧
+    (d : Rat) < e ∧ e ≤ (d : Rat) + 1
+  fixed : isLeaf env t = true → (env.info t).milestone = false →
+    (∀ s, (f0 t).start = some s → g.start = some s) ∧ (∀ e, (f0 t).end_ = some e → g.end_ = some e)
+
+theorem PlacedF.nil {env : Env} {f0 : Uid → Fields} {t : Uid} {g : Fields} (hw : works env f0 t = false)
+    (hfix : isLeaf env t = true → (env.info t).milestone = false →
+      (∀ s, (f0 t).start = some s → g.start = some s) ∧ (∀ e, (f0 t).end_ = some e → g.end_ = some e)) :
+    PlacedF env f0 t g [] :=
+  ⟨⟨fun _ => rfl, fun h => (by rw [hw] at h; cases h), (by simp)⟩, (by simp), (by simp), (by simp), hfix⟩
+
+theorem prepare_leaf (env : Env) (f0 : Uid → Fields) (mem : List Uid) (t : Uid)
+    (hl : (env.info t).children.isEmpty = true) : prepare env f0 mem t = f0 t := by
+  simp [prepare, hl]
+
+theorem leftOf_eq_remaining (env : Env) (f0 : Uid → Fields) (σ : SS) (t : Uid)
+    (he : (σ.f t).est = some (((f0 t).est).getD env.defaultEst)) (hs : (σ.f t).spent = some (((f0 t).spent).getD 0)) :
+    leftOf σ t = remaining env f0 t := by
+  simp [leftOf, remaining, he, hs]
+
+/-- `fwdStart` on a leaf, field by field -/
+theorem fwdStart_leaf_fields (env : Env) (cal : Cal) (used : Int → Rat) (t : Uid) (m : Time) (σ σ' : SS)
+    (hl : (env.info t).children.isEmpty = true) (h : fwdStart env cal used t m σ = .ok σ') :
+    (σ'.f t).end_ = (σ.f t).end_ ∧ (σ'.f t).est = (σ.f t).est ∧ (σ'.f t).spent = (σ.f t).spent ∧
+    (∀ s, (σ.f t).start = some s → (σ'.f t).start = some s) ∧
+    ((σ.f t).start = none → ∃ s s0 k1, (σ'.f t).start = some s ∧ nearestFwd cal used s0 = .ok s ∧ env.clock k1 ≤ s0) := by
+  rcases fwdStart_leaf _ _ _ _ _ _ _ hl h with ⟨ha, rfl⟩ | ⟨ha, s, hn, rfl⟩
+  · refine ⟨rfl, rfl, rfl, fun s hs => hs, fun hn => ?_⟩
+    rw [hn] at ha; cases ha
+  · refine ⟨by simp [setF], by simp [setF], by simp [setF], fun s' hs => (by rw [ha] at hs; cases hs),
+      fun _ => ⟨s, _, σ.reads, by simp [setF], hn, ?_⟩⟩
+    exact Rat.le_trans (le_maxT_right m _) (le_maxT_left _ _)
+
+/-- `fwdEnd` on a leaf, field by field -/
+theorem fwdEnd_leaf_fields (env : Env) (cal : Cal) (used : Int → Rat) (t : Uid) (σ σ' : SS)
+    (hl : (env.info t).children.isEmpty = true) (h : fwdEnd env cal used t σ = .ok σ') :
+    ((σ.f t).end_.isSome = true ∧ σ' = σ) ∨
+    ((σ.f t).end_ = none ∧ ∃ e rows,
+      shiftFwd cal used (maxT (((σ.f t).start).getD epoch) (env.clock σ.reads)) (leftOf σ t) = .ok (e, rows) ∧
+      Stage env t rows σ σ' ∧ (σ'.f t).start = (σ.f t).start ∧
+      (σ'.f t).end_ = some (maxT (maxT e (env.clock (σ.reads + 1))) (((σ.f t).start).getD epoch))) := by
+  rcases fwdEnd_leaf _ _ _ _ _ _ hl h with ⟨ha, rfl⟩ | ⟨ha, e, rows, hsh, rfl⟩
+  · exact Or.inl ⟨ha, rfl⟩
+  · refine Or.inr ⟨ha, e, rows, hsh, ?_, by simp [setF, addRows], by simp [setF]⟩
+    exact ⟨rfl, rfl, fun x hx => by simp [setF, upd, hx, addRows], rfl, by simp [setF, addRows]⟩
+
+theorem fwd_leaf_placed (env : Env) (f0 : Uid → Fields) (cal : Cal) (used : Int → Rat) (t : Uid) (v : Time)
+    (σa σ1 σ2 σ3 : SS) (hc : env.clockOK) (hu : ∀ d, 0 ≤ used d)
+    (hl : (env.info t).children.isEmpty = true) (hm : (env.info t).milestone = false) (hpa : σa.f t = f0 t)
+    (h1 : fwdStart env cal used t v σa = .ok σ1) (h2 : fillEst env t σ1 = .ok σ2)
+    (h3 : fwdEnd env cal used t σ2 = .ok σ3) :
+    ∃ new, Stage env t new σa σ3 ∧ PlacedF env f0 t (σ3.f t) new := by
+  have s1 := fwdStart_stage _ _ _ _ _ _ _ h1
+  have s2 := fillEst_stage _ _ _ _ h2
+  obtain ⟨e2, r2⟩ := fillEst_leaf env t σ1 σ2 hl h2
+  obtain ⟨f1e, f1est, f1sp, f1fix, f1none⟩ := fwdStart_leaf_fields _ _ _ _ _ _ _ hl h1
+  rw [hpa] at f1e f1est f1sp f1fix f1none
+  have g2s : (σ2.f t).start = (σ1.f t).start := by rw [e2]
+  have g2e : (σ2.f t).end_ = (f0 t).end_ := by rw [e2]; exact f1e
+  rcases fwdEnd_leaf_fields _ _ _ _ _ _ hl h3 with ⟨ha, rfl⟩ | ⟨ha, e, rows, hsh, s3, gs, ge⟩
+  · rw [g2e] at ha
+    refine ⟨[], (s1.trans s2).cast (by simp), PlacedF.nil ?_ ?_⟩
+    · cases hx : (f0 t).end_ with
+      | none => rw [hx] at ha; cases ha
+      | some x => simp [works, hx]
+    · intro _ _
+      rw [g2s, g2e]
+      exact ⟨f1fix, fun e he => he⟩
+  · rw [g2e] at ha
+    refine ⟨rows, ((s1.trans s2).trans s3).cast (by simp), ?_⟩
+    have hw : works env f0 t = true := by simp [works, isLeaf, hl, hm, ha]
+    have hleft : leftOf σ2 t = remaining env f0 t :=
+      leftOf_eq_remaining env f0 σ2 t (by rw [e2, f1est]) (by rw [e2, f1sp])
+    obtain ⟨st, hst⟩ : ∃ st, (σ1.f t).start = some st := by
+      cases hx : (f0 t).start with
+      | none => obtain ⟨s, _, _, h, _⟩ := f1none hx; exact ⟨s, h⟩
+      | some s => exact ⟨s, f1fix s hx⟩
+    rw [g2s, hst] at gs
+    rw [g2s, hst, Option.getD_some] at hsh ge
+    obtain ⟨q1, q2, q3, q4⟩ := fwd_leaf_rows env hc cal _ hu st σ2.reads _ (leftOf_nonneg _ _) e rows hsh
+    refine ⟨⟨fun h => (by rw [hw] at h; cases h), fun _ => (by rw [q1, hleft]), q2⟩, ?_, ?_, ?_, ?_⟩
+    · intro p hp
+      exact ⟨st, _, gs, ge, q3 p hp⟩
+    · intro hn hne
+      obtain ⟨s, s0, k1, h1', h2', h3'⟩ := f1none hn
+      rw [hst] at h1'; cases h1'
+      exact ⟨st, gs, fwd_leaf_start env hc cal _ hu s0 st k1 _ h3' h2' _ (leftOf_nonneg _ _) e rows hsh hne⟩
+    · intro hne
+      obtain ⟨d, hd⟩ := q4 hne
+      exact ⟨_, d, ge, hd⟩
+    · intro _ _
+      refine ⟨fun s hs => ?_, fun e' he => (by rw [ha] at he; cases he)⟩
+      rw [gs, ← hst]; exact f1fix s hs
+
+theorem fwdPlace_placed (env : Env) (f0 : Uid → Fields) (mem : List Uid) (σ σ' : SS) (t : Uid) (v : Time)
+    (hc : env.clockOK) (hu : ∀ d, 0 ≤ usedBy env σ.rows (env.info t).resource t d)
+    (hpre : σ.f t = prepare env f0 mem t) (h : fwdPlace env σ t v = .ok σ') :
+    ∃ new, PlaceRes env t new σ σ' ∧ PlacedF env f0 t (σ'.f t) new := by
+  unfold fwdPlace at h
+  rcases hr : resLookup σ.res (env.info t).resource with ⟨res', cal⟩
+  simp only [hr, bind, Except.bind, pure, Except.pure] at h
+  split at h
+  · rename_i hm
+    cases h
+    refine ⟨[], PlaceRes.of_stage (Stage.setF _ _ _ _), PlacedF.nil (by simp [works, hm]) ?_⟩
+    intro _ hm'; rw [hm] at hm'; cases hm'
+  · rename_i hm
+    have hm : (env.info t).milestone = false := by simpa using hm
+    split at h
+    · cases h
+    · rename_i σ1 h1
+      split at h
+      · cases h
+      · rename_i σ2 h2
+        split at h
+        · cases h
+        · rename_i σ3 h3
+          cases h
+          cases hl : (env.info t).children.isEmpty with
+          | false =>
+            have s1 := fwdStart_stage _ _ _ _ _ _ _ h1
+            have s2 := fillEst_stage _ _ _ _ h2
+            have s3 := fwdEnd_nonleaf _ _ _ _ _ _ hl h3
+            refine ⟨[], PlaceRes.of_stage (((s1.trans s2).trans s3).cast (by simp)), PlacedF.nil (by simp [works, isLeaf, hl]) ?_⟩
+            intro hl'; rw [isLeaf, hl] at hl'; cases hl'
+          | true =>
+            rw [prepare_leaf env f0 mem t hl] at hpre
+            obtain ⟨new, hs, hp⟩ := fwd_leaf_placed env f0 cal _ t v { σ with res := res' } σ1 σ2 σ3 hc hu hl hm hpre h1 h2 h3
+            exact ⟨new, PlaceRes.of_stage hs, hp⟩
+
+
+
+/-- what a backward placement establishes -/
+structure PlacedB (env : Env) (f0 : Uid → Fields) (t : Uid) (g : Fields) (new : List (Int × Rat)) : Prop where
+  core : PlacedCore env f0 t new
+  window : ∀ p ∈ new, ∃ s e, g.start = some s ∧ g.end_ = some e ∧ dayOf s ≤ p.1 ∧ (p.1 : Rat) < e
+  startFirst : new ≠ [] → ∃ s, ∃ d : Int, g.start = some s ∧ (∃ p ∈ new, p.1 = d) ∧ (∀ p ∈ new, d ≤ p.1) ∧
+    (d : Rat) ≤ s ∧ s < (d : Rat) + 1
+
+theorem PlacedB.nil {env : Env} {f0 : Uid → Fields} {t : Uid} {g : Fields} (hw : works env f0 t = false) :
+    PlacedB env f0 t g [] :=
+  ⟨⟨fun _ => rfl, fun h => (by rw [hw] at h; cases h), (by simp)⟩, (by simp), (by simp)⟩
+
+theorem bwdEnd_leaf_fields (env : Env) (cal : Cal) (used : Int → Rat) (t : Uid) (m m' : Time) (σ σ' : SS)
+    (hl : (env.info t).children.isEmpty = true) (h : bwdEnd env cal used t m m' σ = .ok σ') :
+    (∃ E, (σ'.f t).end_ = some E) ∧ (σ'.f t).start = (σ.f t).start ∧ (σ'.f t).est = (σ.f t).est ∧
+    (σ'.f t).spent = (σ.f t).spent := by
+  unfold bwdEnd at h
+  simp only at h
+  split at h
+  · rename_i E hE
+    cases h; exact ⟨⟨E, hE⟩, rfl, rfl, rfl⟩
+  · rw [if_pos hl] at h
+    simp only [bind, Except.bind] at h
+    split at h
+    · cases h
+    · cases h
+      exact ⟨⟨_, (by simp only [setF, upd_same]; rfl)⟩, by simp [setF], by simp [setF], by simp [setF]⟩
+
+theorem bwdStart_leaf_fields (env : Env) (cal : Cal) (used : Int → Rat) (t : Uid) (m : Time) (σ σ' : SS)
+    (hl : (env.info t).children.isEmpty = true) (h : bwdStart env cal used t m σ = .ok σ') :
+    ∃ s rows, shiftBwd cal used (minT (((σ.f t).end_).getD epoch) m) (leftOf σ t) = .ok (s, rows) ∧
+      Stage env t rows σ σ' ∧ (σ'.f t).end_ = (σ.f t).end_ ∧
+      (σ'.f t).start = some (match (σ.f t).start with | some old => minT old s | none => s) := by
+  unfold bwdStart at h
+  simp only at h
+  rw [if_pos hl] at h
+  simp only [bind, Except.bind] at h
+  split at h
+  · cases h
+  · rename_i v hv
+    obtain ⟨s, rows⟩ := v
+    cases h
+    refine ⟨s, rows, hv, ?_, by simp [setF, addRows], (by simp only [setF, upd_same]; rfl)⟩
+    exact ⟨rfl, rfl, fun x hx => by simp [setF, upd, hx, addRows], rfl, by simp [setF, addRows]⟩
+
+theorem bwd_leaf_placed (env : Env) (f0 : Uid → Fields) (cal : Cal) (used : Int → Rat) (t : Uid) (m m' : Time)
+    (σa σ1 σ2 σ3 : SS) (hu : ∀ d, 0 ≤ used d)
+    (hl : (env.info t).children.isEmpty = true) (hm : (env.info t).milestone = false) (hpa : σa.f t = f0 t)
+    (hs0 : (f0 t).start = none) (he0 : (f0 t).end_ = none)
+    (h1 : bwdEnd env cal used t m m' σa = .ok σ1) (h2 : fillEst env t σ1 = .ok σ2)
+    (h3 : bwdStart env cal used t m σ2 = .ok σ3) :
+    ∃ new, Stage env t new σa σ3 ∧ PlacedB env f0 t (σ3.f t) new := by
+  have s1 := bwdEnd_stage _ _ _ _ _ _ _ _ h1
+  have s2 := fillEst_stage _ _ _ _ h2
+  obtain ⟨e2, r2⟩ := fillEst_leaf env t σ1 σ2 hl h2
+  obtain ⟨⟨E, hE⟩, f1s, f1est, f1sp⟩ := bwdEnd_leaf_fields _ _ _ _ _ _ _ _ hl h1
+  rw [hpa] at f1s f1est f1sp
+  have g2s : (σ2.f t).start = none := by rw [e2]; exact f1s.trans hs0
+  have g2e : (σ2.f t).end_ = some E := by rw [e2]; exact hE
+  obtain ⟨s, rows, hsh, s3, ge, gs⟩ := bwdStart_leaf_fields _ _ _ _ _ _ _ hl h3
+  rw [g2e] at ge
+  rw [g2s] at gs
+  rw [g2e, Option.getD_some] at hsh
+  refine ⟨rows, ((s1.trans s2).trans s3).cast (by simp), ?_⟩
+  have hw : works env f0 t = true := by simp [works, isLeaf, hl, hm, he0]
+  have hleft : leftOf σ2 t = remaining env f0 t :=
+    leftOf_eq_remaining env f0 σ2 t (by rw [e2, f1est]) (by rw [e2, f1sp])
+  obtain ⟨q1, q2, q3, q4⟩ := bwd_leaf_rows cal used hu _ E (minT_le_left _ _) _ (leftOf_nonneg _ _) s rows hsh
+  refine ⟨⟨fun h => (by rw [hw] at h; cases h), fun _ => (by rw [q1, hleft]), q2⟩, ?_, ?_⟩
+  · intro p hp
+    exact ⟨s, E, gs, ge, q3 p hp⟩
+  · intro hne
+    obtain ⟨d, hd⟩ := q4 hne
+    exact ⟨s, d, gs, hd⟩
+
+theorem bwdPlace_placed (env : Env) (f0 : Uid → Fields) (mem : List Uid) (σ σ' : SS) (t : Uid) (m v : Time)
+    (hu : ∀ d, 0 ≤ usedBy env σ.rows (env.info t).resource t d)
+    (hpre : σ.f t = prepare env f0 mem t)
+    (hnf : (env.info t).children.isEmpty = true → (f0 t).start = none ∧ (f0 t).end_ = none)
+    (h : bwdPlace env σ t m v = .ok σ') :
+    ∃ new, PlaceRes env t new σ σ' ∧ PlacedB env f0 t (σ'.f t) new := by
+  unfold bwdPlace at h
+  rcases hr : resLookup σ.res (env.info t).resource with ⟨res', cal⟩
+  simp only [hr, bind, Except.bind, pure, Except.pure] at h
+  split at h
+  · rename_i hm
+    cases h
+    exact ⟨[], PlaceRes.of_stage (Stage.setF _ _ _ _), PlacedB.nil (by simp [works, hm])⟩
+  · rename_i hm
+    have hm : (env.info t).milestone = false := by simpa using hm
+    split at h
+    · cases h
+    · rename_i σ1 h1
+      split at h
+      · cases h
+      · rename_i σ2 h2
+        split at h
+        · cases h
+        · rename_i σ3 h3
+          cases h
+          cases hl : (env.info t).children.isEmpty with
+          | false =>
+            have s1 := bwdEnd_stage _ _ _ _ _ _ _ _ h1
+            have s2 := fillEst_stage _ _ _ _ h2
+            have s3 := bwdStart_nonleaf _ _ _ _ _ _ _ hl h3
+            exact ⟨[], PlaceRes.of_stage (((s1.trans s2).trans s3).cast (by simp)), PlacedB.nil (by simp [works, isLeaf, hl])⟩
+          | true =>
+            rw [prepare_leaf env f0 mem t hl] at hpre
+            obtain ⟨hs0, he0⟩ := hnf hl
+            obtain ⟨new, hs, hp⟩ := bwd_leaf_placed env f0 cal _ t m v { σ with res := res' } σ1 σ2 σ3 hu hl hm hpre
+              hs0 he0 h1 h2 h3
+            exact ⟨new, PlaceRes.of_stage hs, hp⟩
+
+
+
+
+/-! ### list helpers: rows of one task, first and last day -/
+
+theorem rowsOf_append (a b : List Row) (t : Uid) : rowsOf (a ++ b) t = rowsOf a t ++ rowsOf b t := by
+  simp [rowsOf, List.filter_append]
+
+theorem rowsOf_mk_same (r : Option Nat) (t : Uid) (new : List (Int × Rat)) :
+    rowsOf (new.map (mkRow r t)) t = new.map (mkRow r t) := by
+  unfold rowsOf
+  rw [List.filter_eq_self]
+  intro x hx
+  obtain ⟨p, _, rfl⟩ := List.mem_map.1 hx
+  simp [mkRow]
+
+theorem rowsOf_eq_nil (rows : List Row) (t : Uid) (h : ∀ r ∈ rows, r.task ≠ t) : rowsOf rows t = [] := by
+  unfold rowsOf
+  rw [List.filter_eq_nil_iff]
+  intro x hx
+  simpa using h x hx
+
+theorem rowsOf_mk_other (r : Option Nat) (t x : Uid) (new : List (Int × Rat)) (hx : x ≠ t) :
+    rowsOf (new.map (mkRow r t)) x = [] := by
+  apply rowsOf_eq_nil
+  intro y hy
+  obtain ⟨p, _, rfl⟩ := List.mem_map.1 hy
+  simpa [mkRow] using hx.symm
+
+theorem sumUnits_mk (r : Option Nat) (t : Uid) (new : List (Int × Rat)) :
+    sumUnits (new.map (mkRow r t)) = (new.map (·.2)).sum := by
+  simp [sumUnits, List.map_map, mkRow, Function.comp_def]
+
+theorem once_length : ∀ (l : List (Int × Rat)) (p : Int × Rat), (l.map (·.1)).Pairwise (· ≠ ·) → p ∈ l →
+    (l.filter (fun q => q.1 == p.1)).length = 1
+  | [], _, _, h => by cases h
+  | q :: l, p, hp, h => by
+    simp only [List.map_cons, List.pairwise_cons] at hp
+    rcases List.mem_cons.1 h with rfl | h
+    · have : l.filter (fun q => q.1 == p.1) = [] := by
+        rw [List.filter_eq_nil_iff]
+        intro x hx
+        have := hp.1 x.1 (List.mem_map_of_mem hx)
+        simpa using fun hc => this hc.symm
+      simp [this]
+    · have hne : q.1 ≠ p.1 := hp.1 p.1 (List.mem_map_of_mem h)
+      rw [List.filter_cons_of_neg (by simpa using hne)]
+      exact once_length l p hp.2 h
+
+theorem foldl_min_eq : ∀ (l : List Int) (acc : Option Int) (d : Int), (acc = some d ∨ d ∈ l) →
+    (∀ x, acc = some x → d ≤ x) → (∀ x ∈ l, d ≤ x) →
+    l.foldl (fun m d => match m with | none => some d | some x => some (min x d)) acc = some d
+  | [], acc, d, h, _, _ => by
+    rcases h with h | h
+    · simpa using h
+    · cases h
+  | y :: l, acc, d, h, ha, hl => by
+    simp only [List.foldl_cons]
+    have hy : d ≤ y := hl y (by simp)
+    apply foldl_min_eq l _ d
+    · rcases h with h | h
+      · subst h; left; simp only; congr 1; omega
+      · rcases List.mem_cons.1 h with rfl | h
+        · left
+          cases acc with
+          | none => rfl
+          | some x => have := ha x rfl; simp only; congr 1; omega
+        · exact Or.inr h
+    · intro x hx
+      cases acc with
+      | none => simp only at hx; cases hx; exact hy
+      | some z => have := ha z rfl; simp only at hx; cases hx; omega
+    · intro x hx; exact hl x (List.mem_cons_of_mem _ hx)
+
+theorem foldl_max_eq : ∀ (l : List Int) (acc : Option Int) (d : Int), (acc = some d ∨ d ∈ l) →
+    (∀ x, acc = some x → x ≤ d) → (∀ x ∈ l, x ≤ d) →
+    l.foldl (fun m d => match m with | none => some d | some x => some (max x d)) acc = some d
+  | [], acc, d, h, _, _ => by
+    rcases h with h | h
+    · simpa using h
+    · cases h
+  | y :: l, acc, d, h, ha, hl => by
+    simp only [List.foldl_cons]
+    have hy : y ≤ d := hl y (by simp)
+    apply foldl_max_eq l _ d
+    · rcases h with h | h
+      · subst h; left; simp only; congr 1; omega
+      · rcases List.mem_cons.1 h with rfl | h
+        · left
+          cases acc with
+          | none => rfl
+          | some x => have := ha x rfl; simp only; congr 1; omega
+        · exact Or.inr h
+    · intro x hx
+      cases acc with
+      | none => simp only at hx; cases hx; exact hy
+      | some z => have := ha z rfl; simp only at hx; cases hx; omega
+    · intro x hx; exact hl x (List.mem_cons_of_mem _ hx)
+
+theorem firstDay_mk (r : Option Nat) (t : Uid) (new : List (Int × Rat)) (d : Int) (h1 : ∃ p ∈ new, p.1 = d)
+    (h2 : ∀ p ∈ new, d ≤ p.1) : firstDay (new.map (mkRow r t)) = some d := by
+  unfold firstDay
+  apply foldl_min_eq
+  · right
+    obtain ⟨p, hp, rfl⟩ := h1
+    simp only [List.map_map, List.mem_map, Function.comp]
+    exact ⟨p, hp, rfl⟩
+  · intro x hx; cases hx
+  · intro x hx
+    simp only [List.map_map, List.mem_map, Function.comp] at hx
+    obtain ⟨p, hp, rfl⟩ := hx
+    exact h2 p hp
+
+theorem lastDay_mk (r : Option Nat) (t : Uid) (new : List (Int × Rat)) (d : Int) (h1 : ∃ p ∈ new, p.1 = d)
+    (h2 : ∀ p ∈ new, p.1 ≤ d) : lastDay (new.map (mkRow r t)) = some d := by
+  unfold lastDay
+  apply foldl_max_eq
+  · right
+    obtain ⟨p, hp, rfl⟩ := h1
+    simp only [List.map_map, List.mem_map, Function.comp]
+    exact ⟨p, hp, rfl⟩
+  · intro x hx; cases hx
+  · intro x hx
+    simp only [List.map_map, List.mem_map, Function.comp] at hx
+    obtain ⟨p, hp, rfl⟩ := hx
+    exact h2 p hp
+
+
+
+
+/-! ### the invariant carried through the passes -/
+
+/-- every task not yet done still has its prepared fields; every row belongs to a done task; for every done task
+    the rows it owns in the ledger are those of its placement, and `P` holds of them and of its fields -/
+structure InvP (env : Env) (f0 : Uid → Fields) (mem : List Uid)
+    (P : Uid → Fields → List (Int × Rat) → Prop) (σ : SS) : Prop where
+  ledger : LedgerOK env σ
+  pre : ∀ x, x ∉ σ.done → σ.f x = prepare env f0 mem x
+  rowsDone : ∀ r ∈ σ.rows, r.task ∈ σ.done
+  placed : ∀ t ∈ σ.done, ∃ new, rowsOf σ.rows t = new.map (mkRow (env.info t).resource t) ∧ P t (σ.f t) new
+  doneMem : ∀ t ∈ σ.done, t ∈ mem
+
+theorem InvP.init (env : Env) (f0 : Uid → Fields) (mem : List Uid) (P : Uid → Fields → List (Int × Rat) → Prop)
+    (res0 : List (Option Nat × Cal)) (k : Nat) :
+    InvP env f0 mem P { f := prepare env f0 mem, rows := [], done := [], res := res0, reads := k } :=
+  ⟨LedgerOK.init env _ rfl, fun _ _ => rfl, fun r hr => (by cases hr), fun t ht => (by cases ht), fun t ht => (by cases ht)⟩
+
+theorem InvP.step {env : Env} {f0 : Uid → Fields} {mem : List Uid} {P : Uid → Fields → List (Int × Rat) → Prop}
+    {σ σ' : SS} {t : Uid} {new : List (Int × Rat)} (hi : InvP env f0 mem P σ) (ht : t ∉ σ.done) (hm : t ∈ mem)
+    (hl : LedgerOK env σ') (hr : PlaceRes env t new σ σ') (hp : P t (σ'.f t) new) : InvP env f0 mem P σ' := by
+  refine ⟨hl, ?_, ?_, ?_, ?_⟩
+  · intro x hx
+    rw [hr.done] at hx
+    have h1 : x ∉ σ.done := fun hc => hx (List.mem_append_left _ hc)
+    have h2 : x ≠ t := fun hc => hx (by simp [hc])
+    rw [hr.f x h2]; exact hi.pre x h1
+  · intro r hr'
+    rw [hr.rows] at hr'
+    rw [hr.done]
+    rcases List.mem_append.1 hr' with h | h
+    · exact List.mem_append_left _ (hi.rowsDone r h)
+    · obtain ⟨p, _, rfl⟩ := List.mem_map.1 h
+      simp [mkRow]
+  · intro x hx
+    rw [hr.done] at hx
+    rw [hr.rows, rowsOf_append]
+    by_cases hxt : x = t
+    · subst hxt
+      refine ⟨new, ?_, hp⟩
+      rw [rowsOf_eq_nil σ.rows x (fun r hr hc => ht (hc ▸ hi.rowsDone r hr)), rowsOf_mk_same]
+      rfl
+    · have hxd : x ∈ σ.done := by
+        rcases List.mem_append.1 hx with h | h
+        · exact h
+        · exact absurd (by simpa using h) hxt
+      obtain ⟨n, hn, hpn⟩ := hi.placed x hxd
+      refine ⟨n, ?_, ?_⟩
+      · rw [rowsOf_mk_other _ _ _ _ hxt, List.append_nil]; exact hn
+      · rw [hr.f x hxt]; exact hpn
+  · intro x hx
+    rw [hr.done] at hx
+    rcases List.mem_append.1 hx with h | h
+    · exact hi.doneMem x h
+    · have : x = t := by simpa using h
+      exact this ▸ hm
+
+theorem InvP.used_nonneg {env : Env} {f0 : Uid → Fields} {mem : List Uid}
+    {P : Uid → Fields → List (Int × Rat) → Prop} {σ : SS} (hi : InvP env f0 mem P σ) (t : Uid) :
+    ∀ d, 0 ≤ usedBy env σ.rows (env.info t).resource t d :=
+  fun _ => reserved_nonneg _ hi.ledger.pos _ _ _
+
+/-- the final state of a forward run: the invariant holds and every member is done -/
+theorem fwdRun_inv (env : Env) (f0 : Uid → Fields) (res0 : List (Option Nat × Cal)) (o : Output)
+    (hf : env.flagsOK) (hc : env.clockOK) (h : fwdRun env f0 res0 = .ok o) :
+    ∃ mem σ, members env = some mem ∧ o = { f := σ.f, rows := σ.rows, res := σ.res } ∧
+      InvP env f0 mem (PlacedF env f0) σ ∧ ∀ t ∈ mem, t ∈ σ.done := by
+  obtain ⟨mem, σ, hm, hp, ho⟩ := fwdRun_ok env f0 res0 o h
+  have hmemb : ∀ t, (env.info t).member = true ↔ t ∈ mem := fun t => by rw [← memberList_eq env mem hm]; exact hf t
+  have hI : DoneClosed env σ ∧ InvP env f0 mem (PlacedF env f0) σ := by
+    refine passList_inv (fun s => DoneClosed env s ∧ InvP env f0 mem (PlacedF env f0) s) _ _ ?_ _ _
+      ⟨?_, InvP.init env f0 mem _ res0 1⟩ hp
+    · intro a x b hx ha hh
+      refine ⟨fwdPass_doneClosed env _ _ _ _ _ _ ha.1 hh, ?_⟩
+      exact fwdPass_inv env (InvP env f0 mem (PlacedF env f0)) (fun t => t ∈ mem)
+        (fun s s' t v hq hi ht _ h => by
+          obtain ⟨new, hr, hpl⟩ := fwdPlace_placed env f0 mem s s' t v hc (hi.used_nonneg t) (hi.pre t ht) h
+          exact hi.step ht hq (fwdPlace_ledger env s s' t v hi.ledger h) hr hpl)
+        (fun t c hq hc => members_children env mem hm t hq c hc)
+        (fun t p hq _ he => (hmemb p).1 (he.trans ((hmemb t).2 hq))) _ _ _ _ _ _ (members_root env mem hm x hx) ha.2 hh
+    · intro x hx; cases hx
+  have hroots : ∀ r ∈ env.roots, r ∈ σ.done :=
+    passList_all_done _ _ (fun a x b _ hh => fwdPass_ext env _ _ _ _ _ _ hh) _ _ hp
+  refine ⟨mem, σ, hm, ho, hI.2, ?_⟩
+  intro t ht
+  obtain ⟨rt, hrt, l, hl, htl⟩ := (members_spec env mem hm).2 t ht
+  exact hI.1.subtree (hroots rt hrt) _ l hl t htl
+
+theorem bwdRun_inv (env : Env) (f0 : Uid → Fields) (res0 : List (Option Nat × Cal)) (o : Output)
+    (hf : env.flagsOK) (hn : noFixedDates env f0 = true) (h : bwdRun env f0 res0 = .ok o) :
+    ∃ mem σ, members env = some mem ∧ o = { f := σ.f, rows := σ.rows, res := σ.res } ∧
+      InvP env f0 mem (PlacedB env f0) σ ∧ ∀ t ∈ mem, t ∈ σ.done := by
+  obtain ⟨mem, σ, hm, hp, ho⟩ := bwdRun_ok env f0 res0 o h
+  have hmemb : ∀ t, (env.info t).member = true ↔ t ∈ mem := fun t => by rw [← memberList_eq env mem hm]; exact hf t
+  have hnf : ∀ t ∈ mem, (env.info t).children.isEmpty = true → (f0 t).start = none ∧ (f0 t).end_ = none := by
+    intro t ht hl
+    unfold noFixedDates at hn
+    rw [memberList_eq env mem hm, List.all_eq_true] at hn
+    have := hn t ht
+    simpa [isLeaf, hl] using this
+  have hI : DoneClosed env σ ∧ InvP env f0 mem (PlacedB env f0) σ := by
+    refine passList_inv (fun s => DoneClosed env s ∧ InvP env f0 mem (PlacedB env f0) s) _ _ ?_ _ _
+      ⟨?_, InvP.init env f0 mem _ res0 0⟩ hp
+    · intro a x b hx ha hh
+      refine ⟨bwdPass_doneClosed env _ _ _ _ _ _ ha.1 hh, ?_⟩
+      exact bwdPass_inv env (InvP env f0 mem (PlacedB env f0)) (fun t => t ∈ mem)
+        (fun s s' t m v hq hi ht _ h => by
+          obtain ⟨new, hr, hpl⟩ := bwdPlace_placed env f0 mem s s' t m v (hi.used_nonneg t) (hi.pre t ht) (hnf t hq) h
+          exact hi.step ht hq (bwdPlace_ledger env s s' t m v hi.ledger h) hr hpl)
+        (fun t c hq hc => members_children env mem hm t hq c hc)
+        (fun t p hq _ he => (hmemb p).1 (he.trans ((hmemb t).2 hq))) _ _ _ _ _ _
+        (members_root env mem hm x (List.mem_reverse.1 hx)) ha.2 hh
+    · intro x hx; cases hx
+  have hroots : ∀ r ∈ env.roots, r ∈ σ.done := fun r hr =>
+    passList_all_done _ _ (fun a x b _ hh => bwdPass_ext env _ _ _ _ _ _ hh) _ _ hp r (List.mem_reverse.2 hr)
+  refine ⟨mem, σ, hm, ho, hI.2, ?_⟩
+  intro t ht
+  obtain ⟨rt, hrt, l, hl, htl⟩ := (members_spec env mem hm).2 t ht
+  exact hI.1.subtree (hroots rt hrt) _ l hl t htl
+
+
+
+
+/-! ### from the invariant of the final state to the executable C04 predicates -/
+
+section final
+variable {env : Env} {f0 : Uid → Fields} {mem : List Uid} {P : Uid → Fields → List (Int × Rat) → Prop} {σ : SS}
+
+/-- a row of the final ledger is one of the rows its task's placement reserved -/
+theorem InvP.row_mem (hi : InvP env f0 mem P σ) (r : Row) (hr : r ∈ σ.rows) :
+    r.task ∈ σ.done ∧ ∃ new, rowsOf σ.rows r.task = new.map (mkRow (env.info r.task).resource r.task) ∧
+      P r.task (σ.f r.task) new ∧ ∃ p ∈ new, r = mkRow (env.info r.task).resource r.task p := by
+  have hd := hi.rowsDone r hr
+  obtain ⟨new, hn, hp⟩ := hi.placed r.task hd
+  refine ⟨hd, new, hn, hp, ?_⟩
+  have : r ∈ rowsOf σ.rows r.task := by simp [rowsOf, hr]
+  rw [hn] at this
+  obtain ⟨p, hp, he⟩ := List.mem_map.1 this
+  exact ⟨p, hp, he.symm⟩
+
+theorem c04Amount_of (hi : InvP env f0 mem P σ) (hm : memberList env = mem) (hall : ∀ t ∈ mem, t ∈ σ.done)
+    (hcore : ∀ t g new, P t g new → PlacedCore env f0 t new) :
+    c04Amount env f0 { f := σ.f, rows := σ.rows, res := σ.res } = true := by
+  simp only [c04Amount, hm, List.all_eq_true, Bool.or_eq_true, Bool.not_eq_true', beq_iff_eq]
+  intro t ht
+  cases hw : works env f0 t with
+  | false => exact Or.inl rfl
+  | true =>
+    right
+    obtain ⟨new, hn, hp⟩ := hi.placed t (hall t ht)
+    rw [hn, sumUnits_mk]
+    exact (hcore _ _ _ hp).amount hw
+
+theorem c04OncePerDay_of (hi : InvP env f0 mem P σ)
+    (hcore : ∀ t g new, P t g new → PlacedCore env f0 t new) :
+    c04OncePerDay { f := σ.f, rows := σ.rows, res := σ.res } = true := by
+  simp only [c04OncePerDay, List.all_eq_true, beq_iff_eq]
+  intro r hr
+  obtain ⟨_, new, hn, hp, p, hpn, hrp⟩ := hi.row_mem r hr
+  have : σ.rows.filter (fun x => x.task == r.task && x.day == r.day) =
+      (rowsOf σ.rows r.task).filter (fun x => x.day == r.day) := by
+    unfold rowsOf
+    rw [List.filter_filter]
+    congr 1
+    funext x
+    exact Bool.and_comm _ _
+  rw [this, hn, List.filter_map, List.length_map]
+  have hday : r.day = p.1 := by rw [hrp]; rfl
+  rw [hday]
+  exact once_length new p (hcore _ _ _ hp).once hpn
+
+theorem c04None_of (hi : InvP env f0 mem P σ) (hm : memberList env = mem)
+    (hcore : ∀ t g new, P t g new → PlacedCore env f0 t new) :
+    c04None env f0 { f := σ.f, rows := σ.rows, res := σ.res } = true := by
+  simp only [c04None, hm, List.all_eq_true, Bool.and_eq_true, List.contains_iff_mem]
+  intro r hr
+  obtain ⟨hd, new, hn, hp, p, hpn, hrp⟩ := hi.row_mem r hr
+  refine ⟨?_, hi.doneMem _ hd⟩
+  cases hw : works env f0 r.task with
+  | true => rfl
+  | false =>
+    have := (hcore _ _ _ hp).none hw
+    rw [this] at hpn; cases hpn
+
+theorem c04Window_fwd_of (hi : InvP env f0 mem (PlacedF env f0) σ) :
+    c04Window env true { f := σ.f, rows := σ.rows, res := σ.res } = true := by
+  simp only [c04Window, List.all_eq_true]
+  intro r hr
+  obtain ⟨_, new, hn, hp, p, hpn, hrp⟩ := hi.row_mem r hr
+  obtain ⟨s, e, hs, he, h1, h2, h3⟩ := hp.window p hpn
+  have hday : r.day = p.1 := by rw [hrp]; rfl
+  simp only [hs, he, hday]
+  simp [h1, h2, h3]
+
+theorem c04Window_bwd_of (hi : InvP env f0 mem (PlacedB env f0) σ) :
+    c04Window env false { f := σ.f, rows := σ.rows, res := σ.res } = true := by
+  simp only [c04Window, List.all_eq_true]
+  intro r hr
+  obtain ⟨_, new, hn, hp, p, hpn, hrp⟩ := hi.row_mem r hr
+  obtain ⟨s, e, hs, he, h1, h2⟩ := hp.window p hpn
+  have hday : r.day = p.1 := by rw [hrp]; rfl
+  simp only [hs, he, hday]
+  simp [h1, h2]
+
+theorem c04StartFirstDay_of (hi : InvP env f0 mem (PlacedF env f0) σ) (hm : memberList env = mem)
+    (hall : ∀ t ∈ mem, t ∈ σ.done) :
+    c04StartFirstDay env f0 { f := σ.f, rows := σ.rows, res := σ.res } = true := by
+  simp only [c04StartFirstDay, hm, List.all_eq_true]
+  intro t ht
+  cases hw : works env f0 t with
+  | false => simp
+  | true =>
+    cases hs0 : (f0 t).start with
+    | some s => simp
+    | none =>
+      simp only [Bool.not_true, Option.isSome_none, Bool.or_self, Bool.false_or]
+      obtain ⟨new, hn, hp⟩ := hi.placed t (hall t ht)
+      rw [hn]
+      by_cases hne : new = []
+      · subst hne; simp [firstDay]
+      · obtain ⟨s, hs, p, hpn, hpd⟩ := hp.startFirst hs0 hne
+        have hlow : ∀ q ∈ new, dayOf s ≤ q.1 := by
+          intro q hq
+          obtain ⟨s', _, hs', _, h1, _⟩ := hp.window q hq
+          rw [hs] at hs'; cases hs'; exact h1
+        rw [firstDay_mk _ _ new (dayOf s) ⟨p, hpn, hpd⟩ hlow, hs]
+        simp
+
+theorem c04EndLastDay_of (hi : InvP env f0 mem (PlacedF env f0) σ) (hm : memberList env = mem)
+    (hall : ∀ t ∈ mem, t ∈ σ.done) :
+    c04EndLastDay env f0 { f := σ.f, rows := σ.rows, res := σ.res } = true := by
+  simp only [c04EndLastDay, hm, List.all_eq_true]
+  intro t ht
+  cases hw : works env f0 t with
+  | false => simp
+  | true =>
+    simp only [Bool.not_true, Bool.false_or]
+    obtain ⟨new, hn, hp⟩ := hi.placed t (hall t ht)
+    rw [hn]
+    by_cases hne : new = []
+    · subst hne; simp [lastDay]
+    · obtain ⟨e, d, he, h1, h2, h3, h4⟩ := hp.endLast hne
+      rw [lastDay_mk _ _ new d h1 h2, he]
+      simp [h3, h4]
+
+theorem c04FixedKept_of (hi : InvP env f0 mem (PlacedF env f0) σ) (hm : memberList env = mem)
+    (hall : ∀ t ∈ mem, t ∈ σ.done) :
+    c04FixedKept env f0 { f := σ.f, rows := σ.rows, res := σ.res } = true := by
+  simp only [c04FixedKept, hm, List.all_eq_true]
+  intro t ht
+  cases hl : isLeaf env t with
+  | false => simp
+  | true =>
+    cases hms : (env.info t).milestone with
+    | true => simp
+    | false =>
+      obtain ⟨new, _, hp⟩ := hi.placed t (hall t ht)
+      obtain ⟨h1, h2⟩ := hp.fixed hl hms
+      simp only [Bool.not_true, Bool.false_or, Bool.and_eq_true]
+      constructor
+      · cases hs : (f0 t).start with
+        | none => rfl
+        | some s => simp [h1 s hs]
+      · cases he : (f0 t).end_ with
+        | none => rfl
+        | some e => simp [h2 e he]
+
+theorem c04BwdStartFirstDay_of (hi : InvP env f0 mem (PlacedB env f0) σ) (hm : memberList env = mem)
+    (hall : ∀ t ∈ mem, t ∈ σ.done) :
+    c04BwdStartFirstDay env f0 { f := σ.f, rows := σ.rows, res := σ.res } = true := by
+  simp only [c04BwdStartFirstDay, hm, List.all_eq_true]
+  intro t ht
+  cases hw : works env f0 t with
+  | false => simp
+  | true =>
+    simp only [Bool.not_true, Bool.false_or]
+    obtain ⟨new, hn, hp⟩ := hi.placed t (hall t ht)
+    rw [hn]
+    by_cases hne : new = []
+    · subst hne; simp [firstDay]
+    · obtain ⟨s, d, hs, h1, h2, h3, h4⟩ := hp.startFirst hne
+      rw [firstDay_mk _ _ new d h1 h2, hs]
+      simp [h3, h4]
+
+end final
+
+/-! ### the two entry points -/
+
+theorem forwardCalc_c04 (env : Env) (f0 : Uid → Fields) (res0 : List (Option Nat × Cal)) (o : Output)
+    (hf : env.flagsOK) (hc : env.clockOK) (h : forwardCalc env f0 res0 = .ok o) :
+    c04Amount env f0 o = true ∧ c04OncePerDay o = true ∧ c04Window env true o = true ∧ c04None env f0 o = true ∧
+    c04StartFirstDay env f0 o = true ∧ c04EndLastDay env f0 o = true ∧ c04FixedKept env f0 o = true := by
+  obtain ⟨mem, σ, hm, rfl, hi, hall⟩ := fwdRun_inv env f0 res0 o hf hc (forwardCalc_run env f0 res0 o h)
+  have hml := memberList_eq env mem hm
+  have hcore : ∀ t g new, PlacedF env f0 t g new → PlacedCore env f0 t new := fun _ _ _ hp => hp.core
+  exact ⟨c04Amount_of hi hml hall hcore, c04OncePerDay_of hi hcore, c04Window_fwd_of hi, c04None_of hi hml hcore,
+    c04StartFirstDay_of hi hml hall, c04EndLastDay_of hi hml hall, c04FixedKept_of hi hml hall⟩
+
+theorem backwardCalc_c04 (env : Env) (f0 : Uid → Fields) (res0 : List (Option Nat × Cal)) (o : Output)
+    (hf : env.flagsOK) (hn : noFixedDates env f0 = true) (h : backwardCalc env f0 res0 = .ok o) :
+    c04Amount env f0 o = true ∧ c04OncePerDay o = true ∧ c04Window env false o = true ∧ c04None env f0 o = true ∧
+    c04BwdStartFirstDay env f0 o = true := by
+  obtain ⟨mem, σ, hm, rfl, hi, hall⟩ := bwdRun_inv env f0 res0 o hf hn (backwardCalc_run env f0 res0 o h)
+  have hml := memberList_eq env mem hm
+  have hcore : ∀ t g new, PlacedB env f0 t g new → PlacedCore env f0 t new := fun _ _ _ hp => hp.core
+  exact ⟨c04Amount_of hi hml hall hcore, c04OncePerDay_of hi hcore, c04Window_bwd_of hi, c04None_of hi hml hcore,
+    c04BwdStartFirstDay_of hi hml hall⟩
+
+end C04
 end Pj
